@@ -36,7 +36,8 @@ impl ApmTag {
         dseg_len: u16,
     ) -> Self {
         Self {
-            header: TagHeader::new(Self::ID, mem::size_of::<Self>() as u32),
+            // `size_of::<Self>()` would include the trailing padding.
+            header: TagHeader::new(Self::ID, (mem::size_of::<TagHeader>() + 20) as u32),
             version,
             cseg,
             offset,
